@@ -128,3 +128,10 @@ META['C14'] = dict(
     note='Trusted: TSan (clang 14) instrumentation of the C/C++ sources; JIT-emitted stores are invisible to it; schedules are sampled, not enumerated - a race needing a narrow timing window *and* falling outside TSan\'s history can be missed.',
     technique='property-based testing (rapidcheck) of generated thread workloads under a happens-before race detector + sequential-equivalence oracle',
 )
+
+META['C17'] = dict(
+    text='Cross-build differential: the same tree compiled with the x86 feature macros undefined (generic C++ fallbacks) is loaded next to the default build; generated operands (400k quick / 100M thorough), programs '
+         '(320 / 40k, through the real interpreter loop of both builds) and (key,input,version) triples with dataset items and rounding-mode preservation are compared.',
+    note='Trusted: undefining the macros reproduces the code a port without those features compiles; endianness-dependent fallbacks cannot be exercised on a little-endian host.',
+    technique='differential property-based testing (rapidcheck) between two build configurations of the same tree',
+)
